@@ -501,6 +501,19 @@ def body_spherical(case, ctx):
     ctx.close("projective_to_spherical(spherical_to_projective(s))",
               cp.projective_to_spherical(cp.spherical_to_projective(S.copy())), S, rtol=0,
               atol=1e-12)
+    # the module-level conversions in the column layout (documented option of both)
+    if len(shape) >= 1:
+        ctx.label("column-layout")
+        Sc = np.ascontiguousarray(np.swapaxes(S, -1, -2))
+        pc = np.asarray(cp.spherical_to_projective(Sc.copy(), column_vectors=True))
+        pr = np.asarray(cp.spherical_to_projective(S.copy()))
+        ctx.close("spherical_to_projective(columns) is the transposed row result", pc,
+                  np.swapaxes(pr, -1, -2), rtol=0, atol=0)
+        sc = np.asarray(cp.projective_to_spherical(pc.copy(), column_vectors=True))
+        ctx.check(sc.shape == Sc.shape, "projective_to_spherical(columns): shape", got=sc.shape,
+                  want=Sc.shape)
+        ctx.close("projective_to_spherical(spherical_to_projective(s)) in the column layout",
+                  sc, Sc, rtol=0, atol=1e-12)
     # projective -> sphere -> projective, all constructor routes
     zs = [cx(z) for z in case["zs"]]
     H = np.array([z_to_hom(z) * cx(s) for z, s in zip(zs, case["scales"])])
